@@ -347,12 +347,14 @@ class RealFloat(numbers.Rational):
             case int():
                 other = RealFloat.from_int(other)
             case float():
-                if math.isnan(other) or math.isinf(other):
-                    # Convert self to float and perform float arithmetic
-                    other_sgn = math.copysign(1.0, other) # extract the sign bit
-                    s = self._s != (other_sgn < 0)
-                    res_sgn = -1.0 if s else 1.0
-                    return other * res_sgn
+                if math.isnan(other):
+                    return other
+                elif math.isinf(other):
+                    # 0 * inf is invalid; otherwise the signs combine
+                    if self._c == 0:
+                        return math.nan
+                    s = self._s != (other < 0)
+                    return -math.inf if s else math.inf
                 else:
                     other = RealFloat.from_float(other)
             case Fraction():
